@@ -269,13 +269,24 @@ static int
 be_filter_enable(struct bufferevent *bev, short event)
 {
 	struct bufferevent_filtered *bevf = upcast(bev);
-	if ((event & EV_WRITE) && evbuffer_get_length(bev->output))
+	if ((event & EV_WRITE) && evbuffer_get_length(bev->output)) {
 		BEV_RESET_GENERIC_WRITE_TIMEOUT(bev);
+		/* Whatever was queued while writing was disabled will not
+		 * announce itself again: have the underlying bufferevent run
+		 * its write callback (be_filter_writecb) from the event loop. */
+		bufferevent_trigger(bevf->underlying, EV_WRITE,
+		    BEV_TRIG_DEFER_CALLBACKS);
+	}
 
 	if (event & EV_READ) {
 		BEV_RESET_GENERIC_READ_TIMEOUT(bev);
 		bufferevent_unsuspend_read_(bevf->underlying,
 		    BEV_SUSPEND_FILT_READ);
+		/* Likewise for data that reached the underlying bufferevent
+		 * while we were not reading. */
+		if (evbuffer_get_length(bevf->underlying->input) > 0)
+			bufferevent_trigger(bevf->underlying, EV_READ,
+			    BEV_TRIG_DEFER_CALLBACKS);
 	}
 	return 0;
 }
@@ -459,39 +470,48 @@ be_filter_read_nolock_(struct bufferevent *underlying, void *me_)
 	struct bufferevent *bufev = downcast(bevf);
 	struct bufferevent_private *bufev_private = BEV_UPCAST(bufev);
 	int processed_any = 0;
+	int again;
 
 	// It's possible our refcount is 0 at this point if another thread free'd our filterevent
 	EVUTIL_ASSERT(bufev_private->refcnt >= 0);
 
 	// If our refcount is > 0
-	if (bufev_private->refcnt > 0) {
+	if (bufev_private->refcnt > 0) do {
+		again = 0;
+		processed_any = 0;
 
 		if (bevf->got_eof)
 			state = BEV_FINISHED;
 		else
 			state = BEV_NORMAL;
 
-		/* XXXX use return value */
 		res = be_filter_process_input(bevf, state, &processed_any);
-		(void)res;
 
 		/* XXX This should be in process_input, not here.  There are
 		 * other places that can call process-input, and they should
 		 * force readcb calls as needed. */
 		if (processed_any) {
 			bufferevent_trigger_nolock_(bufev, EV_READ, 0);
-			if (evbuffer_get_length(underlying->input) > 0 &&
-				be_readbuf_full(bevf, state)) {
-				/* data left in underlying buffer and filter input buffer
-				 * hit its read high watermark.
-				 * Schedule callback to avoid data gets stuck in underlying
-				 * input buffer.
-				 */
-				evbuffer_cb_set_flags(bufev->input, bevf->inbuf_cb,
-					EVBUFFER_CB_ENABLED);
+			if (evbuffer_get_length(underlying->input) > 0) {
+				if (be_readbuf_full(bevf, state)) {
+					/* data left in underlying buffer and filter input buffer
+					 * hit its read high watermark.
+					 * Schedule callback to avoid data gets stuck in underlying
+					 * input buffer.
+					 */
+					evbuffer_cb_set_flags(bufev->input, bevf->inbuf_cb,
+						EVBUFFER_CB_ENABLED);
+				} else if (res == BEV_OK && state == BEV_NORMAL &&
+				    bufev->wm_read.high &&
+				    (bufev->enabled & EV_READ)) {
+					/* The read callback has already made room
+					 * again: nobody else will come back for the
+					 * rest of the underlying input. */
+					again = 1;
+				}
 			}
 		}
-	}
+	} while (again && bufev_private->refcnt > 0);
 }
 
 /* Called when the size of our inbuf changes. */
@@ -595,7 +615,13 @@ be_filter_flush(struct bufferevent *bufev,
 	bufferevent_incref_and_lock_(bufev);
 
 	if (iotype & EV_READ) {
-		be_filter_process_input(bevf, mode, &processed_any);
+		int processed_in = 0;
+		be_filter_process_input(bevf, mode, &processed_in);
+		if (processed_in) {
+			/* tell whoever reads from us (maybe another filter) */
+			processed_any = 1;
+			bufferevent_trigger_nolock_(bufev, EV_READ, 0);
+		}
 	}
 	if (iotype & EV_WRITE) {
 		be_filter_process_output(bevf, mode, &processed_any);
